@@ -3769,7 +3769,12 @@ impl XmlUnexpandedEntityReference {
     }
 
     pub fn value(&self) -> error::Result<String> {
-        attr_value_from_name(self.name(), self.context())
+        // White space of the replacement text is normalized only inside an attribute value.
+        let in_attribute = self
+            .parent_item()
+            .map(|v| v.as_attribute().is_some())
+            .unwrap_or_default();
+        entity_value_from_name_in(self.name(), self.context(), in_attribute, &mut vec![])
     }
 }
 
@@ -4271,12 +4276,15 @@ fn attribute_name(name: &parser::AttributeName) -> (String, Option<String>) {
 const MAX_ENTITY_DEPTH: usize = 64;
 
 fn attr_value_from_name(name: &str, context: &Context) -> error::Result<String> {
-    attr_value_from_name_in(name, context, &mut vec![])
+    entity_value_from_name_in(name, context, true, &mut vec![])
 }
 
-fn attr_value_from_name_in(
+/// The text an entity reference stands for; `normalize` replaces each white space character by
+/// a space as attribute-value normalization does, content keeps the white space as declared.
+fn entity_value_from_name_in(
     name: &str,
     context: &Context,
+    normalize: bool,
     open: &mut Vec<String>,
 ) -> error::Result<String> {
     if open.iter().any(|v| v == name) {
@@ -4303,7 +4311,7 @@ fn attr_value_from_name_in(
                 _ => unreachable!(),
             },
             XmlEntityValue::Entity(v) => {
-                let v = attr_value_from_name_in(v, context, open)?;
+                let v = entity_value_from_name_in(v, context, normalize, open)?;
                 parsed.push_str(v.as_str());
             }
             XmlEntityValue::Parameter(v) => {
@@ -4312,7 +4320,8 @@ fn attr_value_from_name_in(
                     v
                 )));
             }
-            XmlEntityValue::Text(v) => parsed.push_str(normalize_ws(v).as_str()),
+            XmlEntityValue::Text(v) if normalize => parsed.push_str(normalize_ws(v).as_str()),
+            XmlEntityValue::Text(v) => parsed.push_str(v),
         }
     }
 
